@@ -20,15 +20,19 @@ class Seed:
 
 
 def _apply(repo, seed):
+    """-> {module: new source} or None when an anchor text is not present exactly as often as expected"""
+    out = {}
     src = repo.module(seed.module).source
     if src.count(seed.old) != seed.count:
         return None
-    src = src.replace(seed.old, seed.new)
-    for o, n in seed.more:
-        if src.count(o) != 1:
+    out[seed.module] = src.replace(seed.old, seed.new)
+    for item in seed.more:
+        mod, o, n = (seed.module,) + tuple(item) if len(item) == 2 else tuple(item)
+        cur = out.get(mod, repo.module(mod).source)
+        if cur.count(o) != 1:
             return None
-        src = src.replace(o, n)
-    return src
+        out[mod] = cur.replace(o, n)
+    return out
 
 
 def _reformat_all(args):
@@ -69,11 +73,12 @@ def _one(args):
     if new is None:
         return idx, "skipped", "anchor text not present (count mismatch)"
     try:
-        compile(new, seed.module, "exec")
+        for mname, text in new.items():
+            compile(text, mname, "exec")
     except SyntaxError as e:
         return idx, "bad-seed", f"seeded source does not compile: {e}"
     try:
-        repo = Repo(root, overrides={seed.module: new})
+        repo = Repo(root, overrides=new)
         ctx = Ctx(pid, "quick", repo, quiet=True)
         try:
             mod.check(ctx)
